@@ -952,6 +952,7 @@ theorem evalG_spec (hrule : ∀ b n, toExpr (rule b n) = sys.rule n) (hc : Coher
     cases e with
     | lit v =>
       rw [evalG_lit]
+      simp only [toExpr]
       refine spec_of_fresh sys I ?_ ?_
       · intro h
         cases v <;> simp [leafOut] at h
@@ -962,9 +963,11 @@ theorem evalG_spec (hrule : ∀ b n, toExpr (rule b n) = sys.rule n) (hc : Coher
         | lit hv => exact hv rfl
     | fail k =>
       rw [evalG_fail]
+      simp only [toExpr]
       exact spec_of_fresh sys I (fun h => by simp at h) (fun h => by simp at h)
     | sub share n =>
       rw [evalG_sub]
+      simp only [toExpr]
       cases hsv : (if share then vis else none) with
       | some V =>
         have hvis : vis = some V := by
@@ -974,7 +977,7 @@ theorem evalG_spec (hrule : ∀ b n, toExpr (rule b n) = sys.rule n) (hc : Coher
         subst hvis
         simp only
         obtain ⟨W, hW, hsub, hcl⟩ := hN.shared (("", n, true) :: V) n
-        refine ⟨fun ht => .node (hN.tru _ n ht), fun h => by cases h, ?_⟩
+        refine ⟨fun ht => .node (hN.tru _ n ht), (fun h => nomatch h), ?_⟩
         intro V0 hV0
         cases hV0
         refine ⟨W, hW, fun x hx => hsub x (List.mem_cons_of_mem _ hx), ?_⟩
@@ -1112,7 +1115,7 @@ theorem evalG_spec (hrule : ∀ b n, toExpr (rule b n) = sys.rule n) (hc : Coher
         subst hV
         obtain ⟨_, _, _, hs4⟩ := hmono
         obtain ⟨W, hW, hsub⟩ := hs4 rfl V rfl
-        refine ⟨htrue, fun h => by cases h, ?_⟩
+        refine ⟨htrue, (fun h => nomatch h), ?_⟩
         intro V0 hV0
         cases hV0
         refine ⟨W, hW, hsub, ?_⟩
